@@ -418,7 +418,7 @@ func listSetNodes(t *ref.Type) []*ref.Type {
 		return nil
 	}
 	var r []*ref.Type
-	if t.Kind == ref.KList || t.Kind == ref.KSet {
+	if t.Kind == ref.KList || t.Kind == ref.KSet || t.Kind == ref.KEnum {
 		r = append(r, t)
 	}
 	r = append(r, listSetNodes(t.Key)...)
@@ -431,12 +431,15 @@ func flipNode(t *ref.Type, k *int) *ref.Type {
 		return nil
 	}
 	c := *t
-	if t.Kind == ref.KList || t.Kind == ref.KSet {
+	if t.Kind == ref.KList || t.Kind == ref.KSet || t.Kind == ref.KEnum {
 		if *k == 0 {
-			if t.Kind == ref.KList {
+			switch t.Kind {
+			case ref.KList:
 				c.Kind = ref.KSet
-			} else {
+			case ref.KSet:
 				c.Kind = ref.KList
+			case ref.KEnum: // the same named Go type annotated as plain i64
+				c.Kind, c.Named = ref.KI64, true
 			}
 		}
 		*k--
@@ -464,7 +467,7 @@ func init() {
 	ck.Phases = func(tier universe.Tier) []*harness.Phase {
 		return append(old(tier), &harness.Phase{
 			Name: "shared-go-type",
-			Rule: "every T3 type and 27 depth-4 types with a list/set node x each such node flipped list<->set (same Go type, different wire schema) x both registration orders x 3 values: both types used in one process must each encode per their own tags",
+			Rule: "every T3 type and 27 depth-4 types with a list/set/enum node x each such node flipped list<->set or enum<->i64-on-the-same-named-type (same Go type, different wire schema) x both registration orders x 3 values: both types used in one process must each encode per their own tags",
 			Body: func(c *explore.C) { c02Siblings(c, tier) },
 		})
 	}
